@@ -29,3 +29,19 @@ mod xform_toposort_declarations;
 
 #[cfg(test)]
 mod test_helpers;
+
+/// Seams for external verification harnesses. Compiled only with feature `verif`.
+#[cfg(feature = "verif")]
+pub mod verif {
+    use ironplc_dsl::{common::Library, diagnostic::Diagnostic};
+
+    /// Merges the libraries and runs the type resolution transforms (same as `analyze` does first).
+    pub fn resolve_types(sources: &[&Library]) -> Result<Library, Vec<Diagnostic>> {
+        crate::stages::resolve_types(sources)
+    }
+
+    /// Runs only the declaration ordering transform.
+    pub fn toposort(library: Library) -> Result<Library, Vec<Diagnostic>> {
+        crate::xform_toposort_declarations::apply(library)
+    }
+}
